@@ -3,6 +3,11 @@
 #pragma once
 
 static Rng g_rng;
+#ifdef VM_NO_RNG
+#define VM_CTOR
+#else
+#define VM_CTOR (g_rng)
+#endif
 struct Snapshot { Prong active[VM_NC]; Prong resumable[VM_NC]; bool on[VM_NS]; };
 static void snap(const Instance& f, Snapshot& s) {
   for (int c = 0; c < VM_NC; ++c) { s.active[c] = f._core.registry.compoActive[c]; s.resumable[c] = f._core.registry.compoResumable[c]; }
@@ -16,9 +21,9 @@ static bool no_lifecycle() { for (int s = 0; s < VM_NS; ++s) if (g_enter_count[s
 
 // an arbitrary ACTIVATED instance satisfying the invariant
 #define ARBITRARY_ACTIVE(f) \
-  Instance f(g_rng); nd_configuration(f); VASSUME(inv_config(f)); VASSUME(spec_activated(f)); sync_monitor(f)
+  Instance f VM_CTOR; nd_configuration(f); VASSUME(inv_config(f)); VASSUME(spec_activated(f)); sync_monitor(f)
 #define CONFIGURED(f, k) \
-  Instance f(g_rng); set_configuration(f, k); for (int c_ = 0; c_ < VM_NC; ++c_) f._core.registry.compoResumable[c_] = nd_u8(); VASSUME(inv_config(f)); sync_monitor(f)
+  Instance f VM_CTOR; set_configuration(f, k); for (int c_ = 0; c_ < VM_NC; ++c_) f._core.registry.compoResumable[c_] = nd_u8(); VASSUME(inv_config(f)); sync_monitor(f)
 
 static void post_invariant(const Instance& f) {
   VASSERT(C01, inv_config(f), "the configuration is well-formed after the step");
@@ -86,7 +91,7 @@ static void post_single_request(const Instance& f, const Snapshot& old, int kind
 
 // ------------------------------------------------------------------------------------------------ init / enter / exit
 static void body_init() {
-  { Instance f(g_rng);
+  { Instance f VM_CTOR;
     for (int s = 0; s < VM_NS; ++s) { g_entered[s] = false; g_enter_count[s] = 0; g_exit_count[s] = 0; }
     VASSERT(C01, !spec_activated(f) && inv_config(f) && inv_quiescent(f), "a manually activated instance starts inactive and well-formed");
     VASSERT(C01, !f.isActive(), "not activated: the root is inactive");
@@ -144,8 +149,12 @@ static void call_immediate(Instance& f, int kind, int dest) {
     case 1: f.immediateRestart((StateID) dest); break;
     case 2: f.immediateResume((StateID) dest); break;
     case 3: f.immediateSelect((StateID) dest); break;
+#ifdef HFSM2_ENABLE_UTILITY_THEORY
     case 4: f.immediateUtilize((StateID) dest); break;
     default: f.immediateRandomize((StateID) dest); break;
+#else
+    default: break;
+#endif
   }
 }
 static void body_immediate(int kind, int dest) {
@@ -169,8 +178,10 @@ static void call_queued(Instance& f, int kind, int dest) {
     case 1: f.restart((StateID) dest); break;
     case 2: f.resume((StateID) dest); break;
     case 3: f.select((StateID) dest); break;
+#ifdef HFSM2_ENABLE_UTILITY_THEORY
     case 4: f.utilize((StateID) dest); break;
     case 5: f.randomize((StateID) dest); break;
+#endif
     default: f.schedule((StateID) dest); break;
   }
 }
@@ -207,6 +218,16 @@ static void body_queued3(int d1, int d2, int d3) {
     if (compatible(d2, d3)) VASSERT(C02, spec_active(f, d2), "a compatible earlier request of the batch is honoured too");
     if (compatible(d1, d3) && compatible(d1, d2)) VASSERT(C02, spec_active(f, d1), "a compatible earlier request of the batch is honoured too");
   }
+}
+// C11: queuing more transitions than the machine can hold (capacity = number of composite regions)
+static void body_queue_overrun() {
+  ARBITRARY_ACTIVE(f);
+  Snapshot old; snap(f, old);
+  for (int k = 0; k <= VM_NC; ++k) f.changeTo((StateID)(1 + k % (VM_NS - 1)));        // capacity + 1 requests, valid ids
+  VASSERT(C11, f._core.requests.count() <= VM_NC, "excess requests are rejected: the queue never holds more than its capacity");
+  g_issuer = -1; g_issuer2 = -1;
+  f.update();
+  VASSERT(C11/C01, inv_config(f), "queuing more requests than the machine can hold does not corrupt the configuration");
 }
 // ------------------------------------------------------------------------------------------------ update() with callbacks issuing requests
 static void body_update(unsigned cfg, int issuer, int kind, int dest) {
@@ -343,8 +364,8 @@ static void arbitrary_in_configuration(Instance& f, int k) {     // k = configur
   VASSUME(k >= 0 ? spec_activated(f) : !spec_activated(f));
 }
 static void body_save_load(int ka, int kb) {
-  Instance a(g_rng); arbitrary_in_configuration(a, ka);
-  Instance b(g_rng); arbitrary_in_configuration(b, kb);
+  Instance a VM_CTOR; arbitrary_in_configuration(a, ka);
+  Instance b VM_CTOR; arbitrary_in_configuration(b, kb);
   VREACH("source and destination instances");
   Snapshot sa, sb; snap(a, sa); snap(b, sb);
   sync_monitor(b);                                               // the monitors follow the destination instance
@@ -378,7 +399,7 @@ static void copy_configuration(Instance& to, const Instance& from) {
 }
 static void body_history_replay(int kind, int dest) {
   ARBITRARY_ACTIVE(a);
-  Instance r(g_rng); copy_configuration(r, a);                     // an identically prepared replica
+  Instance r VM_CTOR; copy_configuration(r, a);                     // an identically prepared replica
   Snapshot old; snap(a, old);
   if (kind == 6) { a.schedule((StateID) dest); a.update(); } else call_immediate(a, kind, dest);
   const auto& hist = a.previousTransitions();
@@ -410,7 +431,7 @@ static void body_history_replay(int kind, int dest) {
 // a step with TWO approved rounds: two queued requests, and an entry guard that requests a third transition without vetoing
 static void body_history_rounds(unsigned cfg, int d1, int d2, int guard_state, int d3) {
   CONFIGURED(a, cfg);
-  Instance r(g_rng); copy_configuration(r, a);
+  Instance r VM_CTOR; copy_configuration(r, a);
   g_sub_guard = guard_state; g_sub_is_entry = true; g_sub_dest = d3; g_sub_nocancel = true;
   call_queued(a, 0, d1); call_queued(a, 0, d2);
   g_issuer = -1; g_issuer2 = -1;
@@ -430,13 +451,13 @@ static void body_history_rounds(unsigned cfg, int d1, int d2, int guard_state, i
   for (int c = 0; c < VM_NC; ++c) VASSERT(C09, r._core.registry.compoActive[c] == after.active[c], "replaying a multi-round history reproduces the same active configuration");
 }
 static void body_history_enter() {
-  Instance a(g_rng);
+  Instance a VM_CTOR;
   for (int s = 0; s < VM_NS; ++s) { g_entered[s] = false; g_enter_count[s] = 0; g_exit_count[s] = 0; }
   g_guards_forbidden = false; g_round_cancelled = false;
   a.enter();
   const auto& hist = a.previousTransitions();
   Snapshot after; snap(a, after);
-  Instance r(g_rng);
+  Instance r VM_CTOR;
   sync_monitor(r);
   if (hist.count()) { g_guards_forbidden = true; r.replayEnter(hist); g_guards_forbidden = false; } else r.enter();   // an activation that recorded nothing cannot be replayed (replayEnter refuses an empty list)
   if (hist.count()) {
@@ -585,6 +606,26 @@ static void body_plan(unsigned cfg, int shape, int actor, int action) {
     if (!(shape == 4 && s == actor && false)) VASSERT(C06, !f._core.planData.tasksSuccesses.get(s) || (acts && action == 1 && s == actor && n_exec == 0 && in_region && attached && n > 0), "success marks survive only while their state waits for its task");
   }
 }
+#ifdef VM_NESTED_PLANS
+// the inner region's plan advances when its sub-state succeeds, whatever the ENCLOSING region's head reports in the same step
+static void body_plan_nested(int outer_mark) {                  // 0: outer head silent, 1: outer head marked succeeded from outside, 2: marked failed
+  CONFIGURED(f, 2);                                              // configuration (B, N, N1)
+  VASSUME(spec_active(f, 5));
+  { auto inner = f.plan((RegionID) VM_PLAN_REGION); VASSUME(inner.change((StateID) 5, (StateID) 6)); }      // N1 -> N2
+  { auto outer = f.plan((RegionID) VM_OUTER_REGION); VASSUME(outer.change((StateID) 3, (StateID) 4)); }     // B1 -> N (origin inactive: never executed here)
+  if (outer_mark == 1) f.succeed((StateID) VM_OUTER_HEAD);
+  if (outer_mark == 2) f.fail((StateID) VM_OUTER_HEAD);
+  g_actor = 5; g_action = 1; g_issuer = -1; g_issuer2 = -1;
+  f.update();
+  VASSERT(C01, inv_config(f) && inv_quiescent(f), "the configuration is well-formed after the step");
+  if (!g_round_cancelled) {
+    VREACH("inner sub-state succeeded");
+    VASSERT(C06, f._core.planData.taskBounds[VM_PLAN_REGION].first == INVALID_LONG, "the inner plan's task is executed and removed although the enclosing head reported in the same step");
+    VASSERT(C06, spec_active(f, 6), "the inner task's destination is active");
+  }
+  VASSERT(C06, g_plan_succeeded[VM_PLAN_HEAD] == 0 && g_plan_failed[VM_PLAN_HEAD] == 0, "the inner head receives no plan notification while its plan still had a task");
+}
+#endif
 #endif
 
 // ------------------------------------------------------------------------------------------------ C14: payloads
@@ -633,7 +674,7 @@ static void check_log_mirrors_trace() {
 }
 static void body_logger(int kind, int dest) {
   ARBITRARY_ACTIVE(f);
-  Instance g(g_rng); copy_configuration(g, f);                   // the same machine without a logger
+  Instance g VM_CTOR; copy_configuration(g, f);                   // the same machine without a logger
   f.attachLogger(&g_logger);
   Snapshot old; snap(f, old);
   call_immediate(f, kind, dest);
@@ -645,7 +686,7 @@ static void body_logger(int kind, int dest) {
 // attaching a logger never changes behaviour (guards approve: both runs take the same decisions)
 static void body_logger_neutral(int kind, int dest) {
   ARBITRARY_ACTIVE(f);
-  Instance g(g_rng); copy_configuration(g, f);
+  Instance g VM_CTOR; copy_configuration(g, f);
   f.attachLogger(&g_logger); g_deterministic = true;
   call_immediate(f, kind, dest);
   uint8_t ts[64], tm[64]; const unsigned n = g_trace_len; for (unsigned i = 0; i < 64; ++i) { ts[i] = g_trace_state[i]; tm[i] = g_trace_method[i]; }
